@@ -154,7 +154,7 @@ def sensitivity(scale, seed, only=None):
                   ("HARNESS " + herr[0][:200]) if herr else "", flush=True)
         finally:
             shutil.rmtree(d, ignore_errors=True)
-    path = os.path.join(VERIF, "seeded", "RESULTS.json")
+    path = os.environ.get("HTSIM_RESULTS") or os.path.join(VERIF, "seeded", "RESULTS.json")
     prev = {}
     if os.path.exists(path):
         with open(path) as f:
